@@ -342,18 +342,18 @@ class UAIWriter(object):
         """
         Returns the UAI file as a string.
         """
-        self.network += self.no_nodes + "\n"
+        network = self.network + self.no_nodes + "\n"
         domain = sorted(self.domain.items(), key=lambda x: (x[1], x[0]))
-        self.network += " ".join([var[1] for var in domain]) + "\n"
-        self.network += str(len(self.functions)) + "\n"
+        network += " ".join([var[1] for var in domain]) + "\n"
+        network += str(len(self.functions)) + "\n"
         for fun in self.functions:
-            self.network += str(len(fun)) + " "
-            self.network += " ".join(fun) + "\n"
-        self.network += "\n"
+            network += str(len(fun)) + " "
+            network += " ".join(fun) + "\n"
+        network += "\n"
         for table in self.tables:
-            self.network += str(len(table)) + "\n"
-            self.network += " ".join(table) + "\n"
-        return self.network[:-1]
+            network += str(len(table)) + "\n"
+            network += " ".join(table) + "\n"
+        return network[:-1]
 
     def get_nodes(self):
         """
@@ -379,8 +379,7 @@ class UAIWriter(object):
         >>> writer.get_domain()
         """
         if isinstance(self.model, BayesianNetwork):
-            cpds = self.model.get_cpds()
-            cpds.sort(key=lambda x: x.variable)
+            cpds = sorted(self.model.get_cpds(), key=lambda x: x.variable)
             domain = {}
             for cpd in cpds:
                 domain[cpd.variable] = str(cpd.variable_card)
@@ -408,8 +407,7 @@ class UAIWriter(object):
         >>> writer.get_functions()
         """
         if isinstance(self.model, BayesianNetwork):
-            cpds = self.model.get_cpds()
-            cpds.sort(key=lambda x: x.variable)
+            cpds = sorted(self.model.get_cpds(), key=lambda x: x.variable)
             variables = sorted(self.domain.items(), key=lambda x: (x[1], x[0]))
             functions = []
             for cpd in cpds:
@@ -448,8 +446,7 @@ class UAIWriter(object):
         >>> writer.get_tables()
         """
         if isinstance(self.model, BayesianNetwork):
-            cpds = self.model.get_cpds()
-            cpds.sort(key=lambda x: x.variable)
+            cpds = sorted(self.model.get_cpds(), key=lambda x: x.variable)
             tables = []
             for cpd in cpds:
                 values = list(
